@@ -302,7 +302,8 @@ Qed.
 (* ================================================================ conversion sites *)
 
 Definition all_sites : list site :=
-  [SArg; SDecl; SAssign; SRet1; SRet2; SRetDefer; SArrInit; SRecInit; SRecArrInit; SFor; SCast].
+  [SArg; SDecl; SDeclStatic; SDeclUnpack; SAssign; SMAssign; SMUnpack; SRet1; SRet2; SRetDefer;
+   SArrInit; SRecInit; SRecArrInit; SFor; SCast].
 
 Lemma all_sites_complete st : In st all_sites.
 Proof. destruct st; cbn; tauto. Qed.
